@@ -20,6 +20,14 @@ def model_apply(d, op):
     d.rm_record(d.find_text(op[1]))
   elif k == "rename":
     d.rename(op[1], op[2])
+  elif k == "nameit":
+    r = d.find_text(op[1])
+    if op[2] in d.names() or op[2] in d.mentioned():
+      raise refdoc.Illegal("target identifier in use or mentioned")
+    if r[0] in ("L", "C"):
+      d.set_tag(r, "ID:Z:" + op[2])
+    else:
+      r[1] = op[2]
   elif k == "settag":
     d.set_tag(d.find_text(op[1]), "{}:i:{}".format(op[2], op[3]))
   elif k == "deltag":
@@ -125,6 +133,8 @@ class S(explore.Spec):
       return [("skip", "step not legal in the model: " + str(e))]
     if ambiguous(d):
       return [("skip", "ambiguous path binding")]
+    if d.degenerate():
+      return [("skip", "group left without items")]
     if err is not None:
       if isinstance(err, gfapy.Error):
         return [("legal-step-refused", "{} raised {}: {}".format(
@@ -177,11 +187,11 @@ class S(explore.Spec):
 
 G1 = [u for u in universe.G1 if "2M1I" not in u]   # no parallel link: see ambiguous()
 S(name="c05.g1", universe=G1, version="gfa1", rename_targets=("Z",), tag_ops=False)
-S(name="c05.g2", universe=universe.G2[:-1], version="gfa2", rename_targets=("z",))
+S(name="c05.g2", universe=universe.G2_SINGLE, version="gfa2", rename_targets=("z",))
 S(name="c05.g1core", universe=universe.G1_CORE, version="gfa1",
-  rename_targets=("Z",), tag_ops=True)
+  rename_targets=("Z",), tag_ops=True, name_unnamed=("n1",))
 S(name="c05.g2core", universe=universe.G2_CORE, version="gfa2",
-  rename_targets=("z",), tag_ops=True)
+  rename_targets=("z",), tag_ops=True, name_unnamed=("n1",))
 
 
 def run(ctx):
@@ -189,7 +199,7 @@ def run(ctx):
               "/ set-tag / delete-tag histories whose every step the text "
               "model calls legal; each transition = one conformance trace "
               "(model vs implementation); non-trivial = state with a reference")
-  ctx.alphabet = {"G1": G1, "G2": universe.G2[:-1]}
+  ctx.alphabet = {"G1": G1, "G2": universe.G2_SINGLE}
   ctx.assumptions = [
       "reference model gfamc/ref/doc.py (documented cascade of "
       "doc/tutorial/references.rst; rename = textual substitution)",
